@@ -232,6 +232,13 @@ impl Insert {
             }
             new_keys_set.insert(keys);
         }
+        // The number of rows cannot exceed 65536 (see Table::read_rows).
+        if rows_map.len() + new_rows.len() > 65536 {
+            invalid_input!(
+                "Table {:?} cannot hold more than 65536 rows",
+                self.table_name
+            );
+        }
         // Insert the new rows into the table.
         for values in new_rows.into_iter() {
             let keys: Vec<Value> = key_indices
